@@ -19,6 +19,7 @@ import (
 //	index i = 0-based index        where s = child name, x = ASCII string literal
 //	first, last                    ext   x = extension url
 //	value (primitive .value)       concat x (& 'x'), count
+//	skip i, take i
 type PStep struct {
 	K string `json:"k"`
 	S string `json:"s"`
@@ -89,6 +90,10 @@ func render(path []PStep) string {
 			fmt.Fprintf(&b, " & '%s'", s.X)
 		case "count":
 			b.WriteString(".count()")
+		case "skip":
+			fmt.Fprintf(&b, ".skip(%d)", s.I)
+		case "take":
+			fmt.Fprintf(&b, ".take(%d)", s.I)
 		}
 	}
 	return b.String()
@@ -279,6 +284,12 @@ func (t *tree) forms(n *lib.Node) []formed {
 		}
 		if w, ok := whereStep(n); ok {
 			out = append(out, formed{"where", cp(base, w)})
+		}
+		// subsetting functions; skip(0) and take(len) hand their input on unchanged
+		out = append(out, formed{"skip0", cp(base, PStep{K: "skip", I: 0}, PStep{K: "index", I: pos})})
+		out = append(out, formed{"takeall", cp(base, PStep{K: "take", I: len(g)}, PStep{K: "index", I: pos})})
+		if pos > 0 {
+			out = append(out, formed{"skipfirst", cp(base, PStep{K: "skip", I: pos}, PStep{K: "first"})})
 		}
 		if u, ok := extURL(n); ok {
 			out = append(out, formed{"ext", cp(t.indexed(p), PStep{K: "ext", X: u})})
